@@ -3,6 +3,7 @@
 package worlds
 
 import (
+	"encoding/binary"
 	"context"
 	"crypto/rand"
 	"fmt"
@@ -120,7 +121,37 @@ func c05SCIONWorld(r *simcore.Run) any {
 		for i := 0; i < n; i++ {
 			var pl []byte
 			kind := ""
-			switch tp.Intn(18, "akind") {
+			switch tp.Intn(20, "akind") {
+			case 18:
+				// an IPv6 host whose last four bytes are the queried IPv4 address, behind ffff in
+				// bytes 10..11 - it only looks like an IPv4-mapped address (the first ten bytes
+				// of a mapped one are zero)
+				if !srvIP.Is4() && !srvIP.Is4In6() {
+					continue
+				}
+				v4 := srvIP.Unmap().As4()
+				look := netip.AddrFrom16([16]byte{0x20, 0x01, 0x0d, 0xb8, 0, 0, 0, 0, 0, 0, 0xff, 0xff, v4[0], v4[1], v4[2], v4[3]})
+				kind = "source-host-ipv4-mapped-lookalike"
+				pl = scRebuild(p, func(s *slayers.SCION, u *slayers.UDP, pld *[]byte) { s.SetSrcAddr(addr.HostIP(look)) })
+			case 19:
+				// behind the end of the UDP datagram, still inside the SCION payload: a forged
+				// header that echoes the request (UDP-header-sized filler in front of it, padded to
+				// the datagram's length). The datagram itself is the genuine one (NTS) or the
+				// genuine one with another origin (plain).
+				forged := append(make([]byte, 8), c05Forge(parseSCION(curReq.Payload).pld)...)
+				kind = "forged-header-behind-the-udp-datagram"
+				pl = scRebuild(p, func(s *slayers.SCION, u *slayers.UDP, pld *[]byte) {
+					if !useNTS {
+						(*pld)[24+tp.Intn(8, "ob")] ^= 1 << tp.Intn(8, "obit")
+					}
+					for len(forged) < 8+len(*pld) {
+						forged = append(forged, 0)
+					}
+				})
+				if pl != nil {
+					pl = append(pl, forged...)
+					binary.BigEndian.PutUint16(pl[6:], binary.BigEndian.Uint16(pl[6:])+uint16(len(forged)))
+				}
 			case 17:
 				// what the server's response to another request of this session looks like (sealed
 				// for that request's identifier), with the outstanding identifier appended behind
